@@ -132,7 +132,9 @@ def oracle(ctx):
         dv = (2.0 + torch.rand(n, dtype=torch.float64)).to(dtype).requires_grad_()
         unused = torch.randn(3, dtype=dtype, requires_grad=True)
         Bt = torch.randn(*ba, n, nc, dtype=dtype).requires_grad_()
-        E = (-0.3 * torch.rand(nc, dtype=torch.float64)).to(dtype).requires_grad_() if mode != "none" else None
+        # a real shift of a complex system (the case the eigen-solver's backward produces; fix F28) every other time
+        e_real = dtype.is_complex and rep % 2 == 0
+        E = (-0.3 * torch.rand(nc, dtype=torch.float64)).to(torch.float64 if e_real else dtype).requires_grad_() if mode != "none" else None
         S = (0.3 * torch.randn(n, n, dtype=dtype)).requires_grad_()
 
         def dense_A():
@@ -172,7 +174,7 @@ def oracle(ctx):
         for fwd in fwd_methods:
             for bck in ("exactsolve", "bicgstab"):
                 tight = dict(rtol=1e-12, atol=1e-14, max_niter=200)
-                info = {"kind": kind, "dtype": str(dtype), "n": n, "ncols": nc, "mode": mode, "A_batch": list(ba), "forward": fwd, "backward": bck}
+                info = {"kind": kind, "dtype": str(dtype), "real_E": e_real, "n": n, "ncols": nc, "mode": mode, "A_batch": list(ba), "forward": fwd, "backward": bck}
                 try:
                     with warnings.catch_warnings():
                         warnings.simplefilter("ignore")
